@@ -3,11 +3,12 @@ EXTENDS Totality, Json
 CONSTANTS Derives, EmitCases, BodySet
 VARIABLES req, st
 
-Init == req = [d |-> "", shape |-> "", pos |-> "", body |-> ""] /\ st = "idle"
+Init == req = [d |-> "", shape |-> "", pos |-> "", body |-> "", body2 |-> ""] /\ st = "idle"
 Request == st = "idle" /\ st' = "requested"
            /\ \E d \in Derives, s \in Shapes, p \in Positions, b \in BodySet :
-                /\ HasPosition(s, p) /\ (p = "none" => b = "bare")
-                /\ req' = [d |-> d, shape |-> s, pos |-> p, body |-> b]
+                /\ HasPosition(s, p) /\ (p = "none" => b = "bare") /\ (p = "field_pair" => b \in PairBodies)
+                /\ \E b2 \in (IF p = "field_pair" THEN PairBodies ELSE {""}) :
+                     req' = [d |-> d, shape |-> s, pos |-> p, body |-> b, body2 |-> b2]
 \* the allowed continuations (the forbidden ones are simply not part of Next)
 Parse   == st = "requested" /\ st' \in {"parsed", "rejected"} /\ UNCHANGED req
 Expand  == st = "parsed" /\ st' \in {"emitted", "rejected"} /\ UNCHANGED req
